@@ -431,13 +431,16 @@ func (r *reader) initNodes(tr io.Reader) error {
 					}
 				}
 
-				pdirName := parentDir(ent.Name)
-				pid, pb, err := r.getOrCreateDir(nodes, md, pdirName, r.rootID)
-				if err != nil {
-					return fmt.Errorf("failed to create parent directory %q of %q: %w", pdirName, ent.Name, err)
-				}
-				if err := setChild(md, pb, pid, path.Base(ent.Name), id, ent.Type == "dir"); err != nil {
-					return err
+				// This entry and its parent are the same when the TOC contains the root directory itself
+				// (e.g. "./", "/"). Don't register it as a child of itself.
+				if pdirName := parentDir(ent.Name); ent.Name != pdirName {
+					pid, pb, err := r.getOrCreateDir(nodes, md, pdirName, r.rootID)
+					if err != nil {
+						return fmt.Errorf("failed to create parent directory %q of %q: %w", pdirName, ent.Name, err)
+					}
+					if err := setChild(md, pb, pid, path.Base(ent.Name), id, ent.Type == "dir"); err != nil {
+						return err
+					}
 				}
 
 				if ent.Offset > 0 && ent.InnerOffset == 0 && len(wantNextOffsetID) > 0 {
